@@ -126,6 +126,8 @@ let weak_acceptance_seen = ref false
    delta computed from such a copy; node deltas computed from such copies *)
 let tainted : (int * string, unit) Hashtbl.t = Hashtbl.create 16
 let tainted_nds : (string, unit) Hashtbl.t = Hashtbl.create 16
+(* members removed from a node by a liveness evaluation (garbage collected) and not seen since *)
+let removed_by_eval : (int * string, unit) Hashtbl.t = Hashtbl.create 16
 let nd_key (nd : ndelta) : string = Marshal.to_string nd []
 let catchup_seen = ref false
 let fails : string list ref = ref []
@@ -133,7 +135,7 @@ let n_checks = ref 0
 
 let reset_case () =
   Hashtbl.reset infos; Hashtbl.reset snaps; Hashtbl.reset ledgers; Hashtbl.reset owner_hb;
-  Hashtbl.reset fresh; now := BZ.zero; Hashtbl.reset tainted; Hashtbl.reset tainted_nds;
+  Hashtbl.reset fresh; now := BZ.zero; Hashtbl.reset tainted; Hashtbl.reset tainted_nds; Hashtbl.reset removed_by_eval;
   weak_acceptance_seen := false; catchup_seen := false
 
 let flag (prop : string) (cls : string option) (what : string) =
@@ -245,6 +247,7 @@ let on_proc (idx : int) (msg : message) (obs : string) : unit =
   let msg = norm_message msg in
   match Hashtbl.find_opt infos idx, parse_obs obs with
   | Some info, Some o ->
+      List.iter (fun (i, _) -> Hashtbl.remove removed_by_eval (idx, token_of_id i)) o.snap.nodes;
       let before = Hashtbl.find_opt snaps idx in
       (match before with
        | Some b ->
@@ -379,6 +382,12 @@ let on_eval (idx : int) (obs : string) : unit =
   | Some info, Some o ->
       let before = Hashtbl.find_opt snaps idx in
       let s = o.snap in
+      (match before with
+       | Some b ->
+           List.iter
+             (fun (i, _) -> if nm_get i s.nodes = None then Hashtbl.replace removed_by_eval (idx, token_of_id i) ())
+             b.nodes
+       | None -> ());
       let known = List.map fst s.nodes in
       check "C12" (c12_after_eval_ok info.self known s.live s.dead)
         "after an evaluation some known member is in neither or both of live/dead";
@@ -463,10 +472,16 @@ let on_delta ?dg (idx : int) (mtu : int) (sched : id list) (obs : string) : unit
     | _ -> ()
   end
 
-let on_catchup (idx : int) (obs : string) : unit =
+let on_catchup ?member (idx : int) (obs : string) : unit =
   catchup_seen := true;
   match parse_obs obs with
-  | Some o -> Hashtbl.replace snaps idx o.snap
+  | Some o ->
+      (match member with
+       | Some m when Hashtbl.mem removed_by_eval (idx, token_of_id m) ->
+           check "C18" (nm_get m o.snap.nodes = None)
+             ("catch-up recreated member " ^ token_of_id m ^ " that a liveness evaluation had garbage collected")
+       | _ -> ());
+      Hashtbl.replace snaps idx o.snap
   | None -> ()
 
 let take_fails () : string list =
